@@ -449,6 +449,44 @@ func checkC15(c *Ctx) {
 		}
 	}
 
+	// ---- C15.14 name packing: the label list built from a payload never contains an empty label (NewName refuses it - in
+	// the background sender, after the request was accepted: the query is never sent and the caller waits forever).
+	// In chunks() a remainder is appended only under a test that it is not empty.
+	r.Rule("C15.14", "chunks() appends a remainder only when it is not empty", 1)
+	if f := c.fn("C15.14", "pkg/registrars/dns-registrar/requester", "", "chunks"); f != nil {
+		n := 0
+		eachInstr(f, func(in ssa.Instruction) {
+			call, ok := in.(*ssa.Call)
+			if !ok {
+				return
+			}
+			b, isB := call.Call.Value.(*ssa.Builtin)
+			if !isB || b.Name() != "append" || len(call.Call.Args) != 2 {
+				return
+			}
+			n++
+			// the appended element(s)
+			full := true
+			if el, ok := varargElems(call.Call.Args[1]); ok {
+				for _, e := range el {
+					if sl, isSl := e.(*ssa.Slice); !isSl || sl.High == nil {
+						full = false
+					}
+				}
+			} else {
+				full = false
+			}
+			g := guardedM(f, in, func(cnd string, pol bool) bool {
+				return (pol && strings.HasPrefix(cnd, "(0 < len(")) || (!pol && strings.HasPrefix(cnd, "(0 == len(")) || (!pol && strings.HasPrefix(cnd, "(len(") && strings.HasSuffix(cnd, " < 1)"))
+			})
+			r.Check(g || (full && guardedM(f, in, func(cnd string, pol bool) bool { return strings.Contains(cnd, "len(") })), "C15.14", "chunks: appended under a non-empty test", call.Pos(), fnName(f), "dominated by len(p) > 0",
+				"a chunk is appended without a test that it is not empty: when the encoded text is an exact multiple of the label size the list ends in a zero-length label, the name is refused in the background sender and the request - already accepted - is never sent")
+		})
+		if n == 0 {
+			r.Unk("C15.14", "chunks: append", f.Pos(), fnName(f), "not found")
+		}
+	}
+
 	r.Rule("C15.11", "the encoder's compression-pointer chains stay within the decoder's pointer limit", 1)
 	if f := c.fn("C15.11", "pkg/registrars/dns-registrar/dns", "messageBuilder", "WriteName"); f != nil {
 		limit := constIntOf(c.P, repoMod+"/pkg/registrars/dns-registrar/dns", "compressionPointerLimit")
@@ -482,6 +520,23 @@ func checkC15(c *Ctx) {
 		})
 		if n == 0 {
 			r.Unk("C15.11", "WriteName: compression pointer", f.Pos(), fnName(f), "no binary.Write of 0xc000|ptr found")
+		}
+		// the bound is only as good as the bookkeeping: when a name ends in a pointer, EVERY suffix of it that was written
+		// verbatim (and cached as a pointer target) now ends in one more pointer - the depth is recorded in a loop over
+		// those suffixes, not for the whole name only
+		nUpd := 0
+		eachInstr(f, func(in ssa.Instruction) {
+			mu, ok := in.(*ssa.MapUpdate)
+			if !ok || !strings.HasSuffix(pathOf(mu.Map), ".nameDepth") {
+				return
+			}
+			nUpd++
+			again, _ := reach(f, in, isInstr(in), nil, nil)
+			r.Check(again, "C15.11", "WriteName: the pointer depth is recorded for every suffix written verbatim", in.Pos(), fnName(f), "the update sits in a loop over the verbatim suffixes",
+				"the chain length is recorded for one name only: the inner suffixes that were just written (and cached as pointer targets) keep depth 0 although they end in a pointer chain, so a later name pointing at one of them exceeds the decoder's limit - the message is encoded without error and refused with ErrTooManyPointers")
+		})
+		if nUpd == 0 {
+			r.Unk("C15.11", "WriteName: depth bookkeeping", f.Pos(), fnName(f), "no update of nameDepth found")
 		}
 	}
 
